@@ -1,7 +1,8 @@
 #!/bin/bash
-# usage: run_seeds.sh <ID> <mutdir> <pkg>
-ID=$1; M=$2; PKG=$3
+# usage: run_seeds.sh <ID> <mutdir> [default pkg]  — confirms each seeded change and runs the check against it
+ID=$1; M=$2; DPKG=${3:-.}
 for i in 1 2 3; do
-  echo "=== $ID seed $i confirm"; /verif/confirm_seed.sh $M $M/out/$i $PKG 2>&1 | grep -v "^WARNING conda"
+  PKG=$DPKG; [ -f $M/out/$i/PKG ] && PKG=$(head -1 $M/out/$i/PKG | tr -d ' \r\n')
+  echo "=== $ID seed $i confirm (pkg $PKG)"; /verif/confirm_seed.sh $M $M/out/$i $PKG 2>&1 | grep -v "^WARNING conda"
   echo "=== $ID seed $i check"; /verif/seedtest.sh $ID $M/out/$i/patch.diff 2>&1 | grep -v "^WARNING conda" | tail -6
 done
